@@ -175,7 +175,7 @@ def run(ctx):
     ctx.fn('sdeint', 'BaseSDESolver.integrate', 'every solver step', 'ForwardSDE.prod / g_prod / g_prod_and_gdg_prod_* / dg_ga_jvp_column_sum_v1',
            'BrownianInterval.__call__', '_Interval._increment_and_space_time_levy_area', '_davie_foster_approximation', '_Interval._randn / _randn_levy')
     ctx.stubs += ['Brownian motion for the solver part: stub keyed by interval with per-row symbols'] + bshim.STUBS
-    ctx.bounds = {'batch': '2 (quick) / 3', 'dims': 'd=2, m=2', 'steps': '2 + interpolated output', 'Brownian shapes': '(2,), (2,2); <=1 symbolic prior query'}
+    ctx.bounds = {'batch': '2 (quick) / 3', 'dims': 'd=2, m=2', 'steps': '2 + interpolated output', 'Brownian shapes': '(2,), (2,2), (2,2,2), (2,3,3); <=1 symbolic prior query'}
     ctx.assumptions += ['row-wise user SDE (the generic polynomial SDE applies the same function to every row)']
     ctx.outside += ['batch sizes above the bound (kernels are uniform in the batch dimension)']
     tasks = tasks_for(ctx.tier)
@@ -192,7 +192,8 @@ def run(ctx):
             ctx.inconc(name, what); continue
         ctx.violation(f"{t[0]},{t[1]},{t[2]}{gf}|rows" + ('|logqp' if len(t) > 7 and t[7] else ''), what, replay=dict(task=list(t)))
     ctx.sample({'solver scenarios': len(tasks)})
-    bt = [('none', (2,), 1), ('space-time', (2, 2), 1), ('davie', (2, 2), 1), ('foster', (2, 2), 0)]
+    # several batch dimensions are a documented shape too: every leading index is a row of its own (seeded change C20d)
+    bt = [('none', (2,), 1), ('space-time', (2, 2), 1), ('davie', (2, 2), 1), ('foster', (2, 2), 0), ('davie', (2, 2, 2), 1), ('foster', (2, 3, 3), 1)]
     for t, (st_, res) in zip(bt, pmap(brownian_task, bt)):
         name = f"Brownian elements levy={t[0]} size={t[1]} prior={t[2]}"
         if st_ != 'ok':
@@ -240,10 +241,11 @@ def replay(data):
             def randn(sz, dtype, device, seed, _b=bump):
                 x = real(sz, dtype, device, seed).clone()
                 if x.dim() >= 1 and _b:
-                    # perturb everything that belongs to batch row 0 of this draw (a non-symmetric bump, so that the
-                    # antisymmetrised Levy noise changes too)
-                    bump_ = torch.arange(1, x[0].numel() + 1, dtype=x.dtype).reshape(x[0].shape) * 0.37
-                    x[0] += bump_
+                    # perturb everything that belongs to batch row 0 (= leading index (0,..,0) over ALL batch dimensions) of
+                    # this draw (a non-symmetric bump, so that the antisymmetrised Levy noise changes too)
+                    row0 = (0,) * max(1, len(size) - 1)
+                    bump_ = torch.arange(1, x[row0].numel() + 1, dtype=x.dtype).reshape(x[row0].shape) * 0.37
+                    x[row0] += bump_
                 return x
             rbi._randn = randn
             try:
@@ -256,8 +258,12 @@ def replay(data):
                 rbi._randn = real
         bad = False
         for nm, a, b in zip('WUA', outs[0], outs[1]):
-            d = (a - b).abs()
-            other_rows = d[1:] if d.dim() >= 2 else d[1:]
+            d = (a - b).abs().clone()
+            if len(size) > 2:
+                d[(0,) * (len(size) - 1)] = 0       # everything outside row (0,..,0)
+                other_rows = d
+            else:
+                other_rows = d[1:]
             print(f'replay C20 brownian: {nm}: max change in rows other than row 0 when row-0 noise is perturbed: {float(other_rows.max()) if other_rows.numel() else 0.0}')
             if other_rows.numel() and float(other_rows.max()) > 1e-12:
                 bad = True
